@@ -145,10 +145,13 @@ def run(ctx, spec, out):
         impl_lines += h.impl
         model_lines += h.model
     # scenarios with a sender that waits (real seconds): connection refused then recovery, second failure, stale, never synchronised
-    scenarios = ["recover", "retries_exceeded", "goes_down", "pending_then_up", "warning_then_up"]
-    nslow = 1 if ctx["tier"] == "quick" else 15
+    scenarios = ["recover", "retries_exceeded", "goes_down", "pending_then_up", "warning_then_up", "background_delivery"]
+    nslow = 2 if ctx["tier"] == "quick" else 18
     for k in range(nslow):
         kind = scenarios[(k + ctx["seed"]) % len(scenarios)]
+        if ctx["tier"] == "quick" and k == 1:
+            # the scenario in which the sender outlives its client runs on every change (unless the rotation chose it already)
+            kind = "background_delivery" if scenarios[ctx["seed"] % len(scenarios)] != "background_delivery" else "recover"
         wb, flags = worldfam.small_world(rng, schema, {"nhosts": [1, 2]})
         wb["id"], wb["name"], wb["sources"] = "b0", "Backend 0", ["self"]
         ui = rng.choice([5, 7])
@@ -160,8 +163,17 @@ def run(ctx, spec, out):
         h.both({"op": "world", "world": {"config": cfg, "backends": [wb]}})
         ncmd = rng.choice([1, 2, 3])
         chunks = ["COMMAND [%d] %s\n\n" % (T0 + i, rng.choice(ARGS)) for i in range(ncmd)]
+        after = []
         if kind == "pending_then_up":
             env = {"b0": ["tick"]}
+        elif kind == "background_delivery":
+            # the sender outlives the client: 202 after 9.5 s, the peer recovers later, the batch must then arrive once
+            h.both({"op": "init", "peer": "b0"}, "state")
+            h.both({"op": "advance", "seconds": ui + 1})
+            h.both({"op": "mode", "backend": "b0", "mode": "garbage"})
+            h.both({"op": "tick", "peer": "b0"}, "state")
+            env = {}
+            after = [{"op": "mode", "backend": "b0", "mode": "ok"}, {"op": "advance", "seconds": ui + 1}, {"op": "tick", "peer": "b0"}, {"op": "sleep", "timeout": 1.6}]
         else:
             h.both({"op": "init", "peer": "b0"}, "state")
             h.both({"op": "advance", "seconds": ui + 1})
@@ -185,7 +197,12 @@ def run(ctx, spec, out):
         sid = h.both({"op": "cmdsession", "text": "".join(chunks), "timeout": 12.0, "env": env})
         logs = {"b0": h.both({"op": "backend_log", "backend": "b0"})}
         sts = {"b0": h.both({"op": "state", "peer": "b0"}, "state")}
-        worlds.append((h, [wb], {"b0": "slow:" + kind}, [{"id": sid, "chunks": chunks, "logs": logs, "states": sts, "ticks": {}, "timeout": 12.0}]))
+        late = None
+        if after:
+            for line in after:
+                h.both(line, "state" if line["op"] == "tick" else None)
+            late = h.both({"op": "backend_log", "backend": "b0"})
+        worlds.append((h, [wb], {"b0": "slow:" + kind}, [{"id": sid, "chunks": chunks, "logs": logs, "states": sts, "ticks": {}, "timeout": 12.0, "late_log": late}]))
         nid = h.n
         impl_lines += h.impl
         model_lines += h.model
@@ -219,6 +236,8 @@ def judge_world(v, h, wbs, plan, sessions, impl, model):
     # background"): what happens in this world after such a session is not compared
     cutoff = None
     for s in sessions:
+        if s.get("late_log"):
+            continue
         m = model.get(s["id"]) or {}
         if any(r.get("outcome") == "waiting" for ev in m.get("events") or [] if ev["ev"] == "flush" for r in ev["results"]):
             cutoff = s["id"]
@@ -268,6 +287,12 @@ def judge_world(v, h, wbs, plan, sessions, impl, model):
                     v.violations.append(("property", case, msg))
                 else:
                     v.corr_broken.append((case, msg))
+                ok = False
+        if s.get("late_log"):
+            got = (impl.get(s["late_log"]) or {}).get("batches") or []
+            want = (model.get(s["late_log"]) or {}).get("batches") or []
+            if got != want:
+                v.violations.append(("property", case, "the client was told the commands continue in the background; after the backend recovered it had received %s, expected %s" % (json.dumps(got)[:400], json.dumps(want)[:400])))
                 ok = False
         # (2) what the client read
         last_errors = {}
